@@ -146,7 +146,7 @@ def differs(ctx, rec, graph, head, ids, seed, ref, ref_events):
 class patched_propagation(object):
     """Context manager: SymbExecStateFix.is_expr_cst (the class attribute the module offers 'to test
     if an Expression is considered as a constant') refuses every expression that reads memory
-    (@no_mem_cst) and/or the engines do not remember stores at all (@forget_stores)."""
+    (@no_mem_cst) and/or the engines keep no knowledge about memory across a store (@forget_stores)."""
 
     def __init__(self, no_mem_cst, forget_stores):
         self.no_mem_cst = no_mem_cst
@@ -163,6 +163,12 @@ class patched_propagation(object):
             return cst_propag.is_expr_cst(lifter, expr)
 
         def no_write(self_, dst, src):
+            # the store is not remembered, and every register whose symbolic value is read
+            # from memory loses that value (it may describe the memory before this store)
+            ids = self_.symbols.symbols_id
+            for reg, val in list(ids.items()):
+                if any(e.is_mem() for e in val.get_r(mem_read=True)):
+                    del ids[reg]
             return None
         if self.no_mem_cst:
             cst_propag.SymbExecStateFix.is_expr_cst = nomem
@@ -202,8 +208,8 @@ def whatif(ctx, ircfg, head, ids, seed, ref, ref_events, forget_stores):
 
 KEY_MEM_CST = ("is_expr_cst takes an expression that reads memory for a constant: "
                "propagated past a store to that memory")
-KEY_STALE_MEM = ("value read back from the engine's symbolic memory although a later store through "
-                 "another symbolic base overwrote it (non-aliasing assumption)")
+KEY_STALE_MEM = ("a store through another symbolic base does not invalidate what the engine knows about the "
+                 "memory it overlaps (non-aliasing assumption): stale stored value or stale load reused")
 
 # configuration "no-mem-cst": the same API with the documented customisation point is_expr_cst
 # refusing memory reads.  It is checked as well because the first known finding (memory reads are
